@@ -240,12 +240,18 @@ class _BuildingNode(object):
         return self._variable
 
     def handle_token(self, sender, token):
+        """Handle the token; returns an iterator over the (recipient, token)
+        pairs this node sends next, or None if it sends nothing.
+
+        The caller (see `_pass_token`) delivers these tokens with an explicit
+        stack: the DFS depth is not limited by python's recursion limit.
+        """
         token = token[:]
         self._visited.append(sender)
         if sender is None:
             # root
             self.root = True
-            self._propagate(token)
+            return self._propagate(token)
 
         elif self.parent is None and not self.root:
             self.parent = sender
@@ -255,13 +261,12 @@ class _BuildingNode(object):
             self._neighbors.sort(
                 key=lambda x: x.count_neighbors_in_token(token), reverse=True
             )
-            self._propagate(token)
+            return self._propagate(token)
 
         else:
-            if sender in self.children:
-                pass
-            else:
+            if sender not in self.children:
                 self.pseudo_children.append(sender)
+            return None
 
     def _propagate(self, token):
         token.append(self)
@@ -277,7 +282,7 @@ class _BuildingNode(object):
             if n not in self._visited:
                 if n not in self.pseudo_parents:
                     self.children.append(n)
-                n.handle_token(self, token)
+                yield n, token
 
     def count_neighbors_in_token(self, token):
         """
@@ -358,10 +363,24 @@ def _generate_dfs_tree(variables, relations, root=None):
                 root = n
                 break
 
-    token = []
-    root.handle_token(None, token)
+    _pass_token(root)
 
     return root
+
+
+def _pass_token(root):
+    """Token-passing DFS from `root`, with an explicit stack of senders."""
+    stack = [(root, root.handle_token(None, []))]
+    while stack:
+        sender, sending = stack[-1]
+        try:
+            recipient, token = next(sending)
+        except StopIteration:
+            stack.pop()
+            continue
+        sub = recipient.handle_token(sender, token)
+        if sub is not None:
+            stack.append((recipient, sub))
 
 
 def _visit_tree(root):
@@ -370,12 +389,11 @@ def _visit_tree(root):
 
     :param root: the root node of the tree.
     """
-    yield root
-    for c in root.children:
-        # Using 'yield from would be nicer, but is only available with python
-        #  >= 3.3
-        for n in _visit_tree(c):
-            yield n
+    stack = [root]
+    while stack:
+        n = stack.pop()
+        yield n
+        stack.extend(reversed(n.children))
 
 
 def tree_str_desc(root, indent_num=0):
